@@ -273,6 +273,16 @@ def q4(rep, w):
     seq.sort()
     names = [o for (_, k, o) in seq]
     want = ['Nil', 'Invoke', 'IterNext', 'SetLocal', 'JumpIfStopIter', 'Pop', 'Loop', 'Pop']
+    # who takes the end marker off the stack at the loop exit: the Pop emitted there - unless the jump instruction's own handler pops it on
+    # every path on which it jumps (then the compiler must not pop a second time). Read from the handler, not assumed.
+    import c04
+    jh = w.fn(VM + 'jump_if_stop_iter')
+    out = c04.stack_outcomes(w, jh) if jh is not None else None
+    if out and out.get(True) == {-1} and out.get(False, {0}) == {0}:
+        want = want[:-1]
+        later_pops = [bi for (bi, kind, o, d) in ev if o == 'Pop' and any(bi in f.reachable_blocks(lb) for (lb, k2, o2, d2) in ev if (o2 == 'Loop' or k2 == 'loop'))]
+        r.check(not later_pops, 'the marker is popped once: by JumpIfStopIter itself, not again at the loop exit',
+                'JumpIfStopIter pops the end marker when it jumps and for_statement still emits a Pop at the loop exit: one slot too many is removed', f.loc())
     # `names` may contain duplicates from emit helpers; compare as subsequence
     it = iter(names)
     ok = all(x in it for x in want)
